@@ -76,6 +76,10 @@ pub struct Decl {
     pub expect_refused: Option<bool>,
     #[serde(default)]
     pub raw_content_type: Option<String>,
+    /// every attribute of the item in order (the endpoint attribute left out), when some of
+    /// them are not literal doc lines: ("lit", value) | ("expr", source) | ("other", source)
+    #[serde(default)]
+    pub items: Option<Vec<(String, String)>>,
     /// size-like dimensions this declaration pushes (evidence tags `large:..`)
     #[serde(default)]
     pub large: Vec<String>,
@@ -181,7 +185,18 @@ pub fn g_attr(d: &Decl) -> String {
         g_bool(d.deprecated),
         g_bool(d.unpublished),
         g_versions(&d.versions),
-        g_list(&d.doc, |s| g_ustr(s)),
+        match &d.items {
+            // the item's whole attribute list; the model picks the literal doc values
+            Some(items) => format!(
+                "(literal_docs {})",
+                g_list(items, |(k, t)| match k.as_str() {
+                    "lit" => format!("(ADocLit {})", g_ustr(t)),
+                    "expr" => "ADocExpr".to_string(),
+                    _ => "AOther".to_string(),
+                })
+            ),
+            None => g_list(&d.doc, |s| g_ustr(s)),
+        },
         g_str(&d.name)
     )
 }
@@ -748,7 +763,7 @@ fn versions_of(decls: &[Decl], rng: &mut Rng) -> (Vec<Version>, Vec<Version>) {
 
 const STYLES: [&str; 3] = ["function", "trait-impl", "trait-stub"];
 
-fn run_batch(b: &Batch, opts: &Opts, only: Option<&[usize]>, out: &mut dyn Write) {
+fn run_batch(b: &Batch, opts: &Opts, only: Option<&[usize]>, with_docs: bool, out: &mut dyn Write) {
     let file: BatchFile = serde_json::from_str(b.json).expect("batch json");
     let decls = file.decls;
     let mut rng = Rng::new(opts.seed.wrapping_mul(31).wrapping_add(b.k as u64));
@@ -879,7 +894,7 @@ fn run_batch(b: &Batch, opts: &Opts, only: Option<&[usize]>, out: &mut dyn Write
         );
     }
 
-    if only.is_none() {
+    if only.is_none() || with_docs {
         // whole documents, per probe version
         for (i, v) in probes.iter().enumerate() {
             let a = s_fn.docs[i] == s_impl.docs[i];
@@ -901,6 +916,8 @@ fn run_batch(b: &Batch, opts: &Opts, only: Option<&[usize]>, out: &mut dyn Write
                 },
             );
         }
+    }
+    if only.is_none() {
         // declarations whose construction must panic
         let obs = (b.panics)();
         for (d, o) in file.panics.iter().zip(obs) {
@@ -929,7 +946,8 @@ impl serde::Serialize for DeclView<'_> {
                "request_body_max_bytes": d.max_bytes.as_ref().map(|m| m.expr.clone()),
                "deprecated": d.deprecated, "unpublished": d.unpublished,
                "versions": d.versions.as_ref().map(|v| format!("{:?}", v)),
-               "body": d.body, "doc": d.doc})
+               "body": d.body, "doc": d.doc,
+               "item_attributes_in_order": d.items})
         .serialize(s)
     }
 }
@@ -945,6 +963,7 @@ fn main() {
             Some(cases) => {
                 // a case names a declaration of a committed batch
                 let mut by_batch: BTreeMap<usize, Vec<usize>> = BTreeMap::new();
+                let mut docs_of: Vec<usize> = Vec::new();
                 for c in &cases {
                     if c.get("refuse").is_some() {
                         continue;
@@ -952,11 +971,15 @@ fn main() {
                     let k = c.get("batch").and_then(|v| v.as_u64()).unwrap_or(0) as usize;
                     if let Some(i) = c.get("idx").and_then(|v| v.as_u64()) {
                         by_batch.entry(k).or_default().push(i as usize);
+                    } else if c.get("version").is_some() {
+                        // a whole-document case: all documents of that batch are compared again
+                        by_batch.entry(k).or_default();
+                        docs_of.push(k);
                     }
                 }
                 for (k, idxs) in by_batch {
                     if let Some(b) = bs.iter().find(|b| b.k == k) {
-                        run_batch(b, opts, Some(&idxs), out);
+                        run_batch(b, opts, Some(&idxs), docs_of.contains(&k), out);
                     }
                 }
                 let tcs: Vec<usize> = cases
@@ -974,7 +997,7 @@ fn main() {
                 for b in &bs {
                     if b.k == 0 || b.k == 9 || opts.thorough {
                         let mut buf = Vec::new();
-                        run_batch(b, opts, None, &mut buf);
+                        run_batch(b, opts, None, true, &mut buf);
                         bufs.push(buf);
                     }
                 }
